@@ -574,11 +574,19 @@ def cases(tier, seed):
             yield {"k": "empty", "n": n, "ctx": ctx}
     # flows longer than 1000 values: the only place where bufsize=1000 (the default) and
     # bufsize=None (one block) differ
-    for i, letters in enumerate(["CRQ", "RSQC", "QR", "RCSQ", "SRRC", "QCR"]):
+    for i, letters in enumerate(["CRQ", "RSQC", "QR", "RCSQ", "SRRC", "QCR", "CC", "CCC", "CCCC",
+                                 "RR", "CCR"]):
         for n in (1001, 2300):
             rng = gen.rng_for(seed, "C03long", i, n)
             branches = [enum_branch(rng, letter, idx, rng.choice([None, 1000, 1500]), False)
                         for idx, letter in enumerate(letters)]
+            if i >= 6:
+                # branches of one kind that stop in different thousands, later branches first
+                stops = [1700, 400, 1200, 2100][:len(letters)]
+                if i % 2:
+                    stops = stops[::-1]
+                branches = [enum_branch(rng, letter, idx, st if st < n else None, False)
+                            for idx, (letter, st) in enumerate(zip(letters, stops))]
             yield {"k": "run", "branches": branches, "flow": list(range(n)), "copy_buf": i % 2,
                    "src": "long", "bufsizes": [1000, None, 999, 1001, n, n + 1]}
 
@@ -809,6 +817,31 @@ def check_identity(obs, flow):
                           "empty-split-not-identity",
                           "Split([], bufsize=%r, copy_buf=%r).run(%r) = %r"
                           % (bufsize, cb, flow, got))
+                # a copy of it (alone and inside a sequence), after and before its first run
+                import copy
+                import pickle
+                for cname, cp in (("copy.copy", copy.copy), ("copy.deepcopy", copy.deepcopy),
+                                  ("pickle", lambda o: pickle.loads(pickle.dumps(o)))):
+                    for used_first in (True, False):
+                        sp0 = lena.core.Split([], bufsize=bufsize, copy_buf=cb)
+                        seq0 = lena.core.Sequence(lena.core.Split([], bufsize=bufsize,
+                                                                  copy_buf=cb))
+                        if used_first:
+                            list(sp0.run(iter(flow)))
+                            list(seq0.run(iter(flow)))
+                        try:
+                            got = list(cp(sp0).run(iter(flow)))
+                            got2 = list(cp(seq0).run(iter(flow)))
+                            got3 = list(sp0.run(iter(flow)))
+                        except Exception as e:  # pylint: disable=broad-except
+                            got = got2 = got3 = "raised %r" % (e,)
+                        obs.count("empty_split_copies")
+                        verdict(obs, got == flow and got2 == flow and got3 == flow,
+                                "empty-split-not-identity:copied",
+                                "%s of Split([], bufsize=%r, copy_buf=%r)%s run on %r gives %r, "
+                                "inside a Sequence %r, the original afterwards %r"
+                                % (cname, bufsize, cb, " (used before)" if used_first else "",
+                                   flow, got, got2, got3))
 
 
 def run_common(r, obs):
